@@ -6,6 +6,7 @@ Sections (cfg `kind=`):
   cs     `req m= path= query= uri= hdr= fp= sec= plain= sig= dt= sk= ak= body= reply= …`
            =>  `now p q cl uripq rsa sigv aes` (environment/oracles), `ran status seen resp`
   crypt  `req body= reply= [cl=]`  =>  `cl aes`, `ran status seen resp`
+  tp     `parse s= p= auth= now= clk=`  =>  token facts, `err valid hist` (TokenParser.ParseToken + history counters)
   text   `ph text=` | `b64d text=` | `b64e data=` | `hmac key= text=`
 All free text is hex; `-` is the empty string.
 -/
@@ -43,7 +44,8 @@ def parsePairs (s : String) : Option (List (String × String)) :=
 def showPairs (l : List (String × String)) : String :=
   if l.isEmpty then "-" else ",".intercalate (l.map fun (k, v) => s!"{k}={v}")
 
-def strBytes (s : String) : Bytes := s.toUTF8.toList
+/-- Go strings are byte strings: the driver carries them with one `Char` (0..255) per byte -/
+def strBytes (s : String) : Bytes := asciiBytes s
 
 /-- the block cipher seen through the harness' table of raw AES block decryptions `ct:pt` -/
 def oracleCipher (table : List (Bytes × Bytes)) (miss : UInt8) : BlockCipher where
@@ -78,6 +80,20 @@ def parseResp (obs : List String) : Option Resp := do
   let status := st.toNat?.getD 0
   if st ≠ "PANIC" ∧ st.toNat?.isNone then none
   pure { ran := ran ≠ "0", seen := seen, status := status, body := body, panic := st = "PANIC" }
+
+/-- cover counter for a generator label, and the generator's own verdict: a request it made invalid by exactly one
+change (`inv-…`) must not reach the handler -/
+def labelCheck (r : Report) (sec line : Nat) (pfx : String) (lbl : Option String) (enforce ran : Bool) (shown : String) : Report :=
+  match lbl with
+  | none => r
+  | some l =>
+    let r := r.addCover s!"{pfx}-mut-{l}"
+    if l.startsWith "inv-" then
+      if enforce ∧ ran then r.violation sec line s!"{pfx}: the handler ran on a credential made invalid by one change ({l}) [{shown}]"
+      else r.addCover s!"{pfx}-invalidating-change-rejected"
+    else if l.startsWith "eq-" ∨ l.startsWith "valid" then
+      r.addCover (if ran then s!"{pfx}-harmless-change-accepted" else s!"{pfx}-harmless-change-rejected")
+    else r
 
 /-! ### jwt -/
 
@@ -136,9 +152,100 @@ def runJwtLine (r : Report) (sec : Nat) (st : JwtSt) (l : Line) : Report × JwtS
         let r := match jwtMonitor f now st.secret st.prev out with
           | some msg => r.violation sec l.idx s!"{msg} [{show_ out}]"
           | none => r
+        let r := labelCheck r sec l.idx "jwt" (kv? args "mut") true out.ran (show_ out)
+        let r := if kv? args "via" = some "wire" then r.addCover "jwt-via-wire" else r
+        let r := if kvNat o "nauth" 0 > 1 then r.addCover "jwt-authorization-sent-twice" else r
+        let r := match f.exp with
+          | .at t => if t = now then r.addCover "jwt-exp-equals-now" else if t = now + 1 then r.addCover "jwt-exp-now-plus-one" else r
+          | _ => r
+        let r := match f.nbf with
+          | .at t => if t = now then r.addCover "jwt-nbf-equals-now" else if t = now + 1 then r.addCover "jwt-nbf-now-plus-one" else r
+          | _ => r
+        let r := match f.iat with
+          | .at t => if t = now then r.addCover "jwt-iat-equals-now" else if t = now + 1 then r.addCover "jwt-iat-now-plus-one" else r
+          | _ => r
         (r, { st with hist := res.1, clock := clock })
       | _, _ => fail "unparsable-observation"
     | _, _ => fail "bad-op"
+  | _ => fail "bad-op"
+
+/-! ### TokenParser (rest/token): ParseToken with per-call secret pairs, history counters observed -/
+
+structure TpSt where
+  hist  : Hist
+  clock : Int
+
+/-- `hexsecret:count,…` (sorted by the harness) -/
+def parseHist (s : String) : Option (List (String × Nat)) :=
+  if s = "-" then some [] else
+  (s.splitOn ",").mapM fun p =>
+    match p.splitOn ":" with
+    | [k, n] => do pure ((← unhexStr k), (← n.toNat?))
+    | _ => none
+
+def showHist (l : List (String × Nat)) : String :=
+  if l.isEmpty then "-" else ",".intercalate (l.map fun (k, n) => s!"{toHex (asciiBytes k)}:{n}")
+
+def runTpLine (r : Report) (sec : Nat) (st : TpSt) (l : Line) : Report × TpSt :=
+  let fail (msg : String) := (r.mismatch sec l.idx msg (joinSp l.op), st)
+  match l.op with
+  | "parse" :: args =>
+    let o := l.obs
+    let parsed : Option (String × String × Int × Int × TokenFacts String × Bool × Bool × List (String × Nat)) := do
+      let s ← unhexStr (← kv? args "s")
+      let p ← unhexStr (← kv? args "p")
+      let now ← (← kv? args "now").toInt?
+      let clk ← (← kv? args "clk").toInt?
+      let alg ← kv? o "alg"
+      let algS ← if alg = "-" then some none else (unhexStr alg).map some
+      let sigcur := kv? o "sigcur" = some "1"
+      let sigprev := kv? o "sigprev" = some "1"
+      let f : TokenFacts String := {
+        present := kv? o "present" = some "1", segs := (← (← kv? o "segs").toNat?),
+        hdrOk := kv? o "hdr" = some "1", clmOk := kv? o "clm" = some "1", alg := algS,
+        sigOk := fun x => (x = s && sigcur) || (x = p && p ≠ "" && sigprev),
+        exp := (← parseTimeClaim (← kv? o "exp")), nbf := (← parseTimeClaim (← kv? o "nbf")),
+        iat := (← parseTimeClaim (← kv? o "iat")), claims := [] }
+      let err ← kv? o "err"
+      let valid ← kv? o "valid"
+      let hist ← parseHist (← kv? o "hist")
+      pure (s, p, now, clk, f, err ≠ "0", valid = "1", hist)
+    match parsed with
+    | some (s, p, now, clk, f, err, valid, hist) =>
+      let clock := st.clock + clk
+      let verify := jwtVerify f now
+      let res := parseToken verify st.hist s p clock
+      let r := { r with ops := r.ops + 1 }
+      let fs := firstSecond st.hist s p
+      let r := r.addCover (
+        if p.length = 0 then (if res.2.isErr then "tp-single-secret-failed" else "tp-single-secret-ok")
+        else if !(verify fs.1).isErr then (if fs.1 = s then "tp-first-attempt-ok-current" else "tp-first-attempt-ok-previous")
+        else if !(verify fs.2).isErr then (if fs.2 = s then "tp-second-attempt-ok-current" else "tp-second-attempt-ok-previous")
+        else "tp-both-attempts-failed")
+      let r := if p.length > 0 then r.addCover (
+        if st.hist.count s > st.hist.count p then "tp-current-leads" else if st.hist.count s = st.hist.count p then
+          (if st.hist.count s = 0 then "tp-counts-both-zero" else "tp-counts-tie") else "tp-previous-leads") else r
+      let r := if s = p then r.addCover "tp-same-secret-twice" else r
+      let r := if p.length > 0 ∧ !res.2.isErr then
+          (if st.hist.resetTime + st.hist.resetDuration < clock then
+             r.addCover (if st.hist.counts.isEmpty then "tp-history-reset-empty" else "tp-history-reset-cleared")
+           else if st.hist.resetTime + st.hist.resetDuration = clock then r.addCover "tp-history-reset-boundary-not-yet"
+           else r)
+        else r
+      let r := if res.1.counts.length > 2 then r.addCover "tp-history-more-than-two-secrets" else r
+      let modelValid := match res.2 with | .tok v _ => v | .err => false
+      let same := res.1.counts.length = hist.length ∧ hist.all (fun kn => res.1.count kn.1 = kn.2)
+      let r := if res.2.isErr ≠ err ∨ modelValid ≠ valid ∨ ¬ same then
+          r.mismatch sec l.idx s!"err={res.2.isErr} valid={modelValid} hist={showHist res.1.counts}"
+            s!"err={err} valid={valid} hist={showHist hist}"
+        else r
+      -- the property: ParseToken succeeds only for a credential that is valid under one of the two secrets given
+      let r := if !err ∧ !credentialOk f now s p then
+          r.violation sec l.idx "tp: ParseToken accepted a token that is not valid under the current or the previous secret"
+        else if !err ∧ !valid then r.violation sec l.idx "tp: ParseToken returned a token that is not marked valid without an error"
+        else r
+      (r, { hist := res.1, clock := clock })
+    | none => fail "unparsable-line"
   | _ => fail "bad-op"
 
 /-! ### content security / cryption -/
@@ -149,12 +256,48 @@ def compareResp (r : Report) (sec line : Nat) (m0 m1 : Resp) (obs : Resp) : Repo
     r.mismatch sec line (showResp m0) (showResp obs)
   else r
 
+/-- the literal the harness uses for a secret field that is base64 but no RSA ciphertext -/
+def garbageSecret : String := "Z2FyYmFnZS1zZWNyZXQ="
+
+def secretMark : String := "@SECRET@"
+
+/-- `fphex/P|G/NOKEY|ERR|OK:hex` entries: what RSA decryption gives for (fingerprint, secret field) pairs -/
+def parseRsaTable (s : String) : Option (List (String × String × RsaRes)) :=
+  if s = "-" then some [] else
+  (s.splitOn ",").mapM fun e =>
+    match e.splitOn "/" with
+    | [fp, tag, res] => do
+      let fp ← unhexStr fp
+      let sec ← if tag = "P" then some secretMark else if tag = "G" then some garbageSecret else none
+      let r : RsaRes ←
+        if res = "NOKEY" then some .noKey else if res = "ERR" then some .err
+        else match res.splitOn ":" with
+          | ["OK", h] => (unhexStr h).map .ok
+          | _ => none
+      pure (fp, sec, r)
+    | _ => none
+
+def parseHexList (s : String) : Option (List String) :=
+  if s = "none" then some [] else (s.splitOn "|").mapM unhexStr
+
+/-- how the request was framed, from what the middleware was handed -/
+def frameName (cl : Int) (body : Bytes) : String :=
+  if cl > 0 then (if cl = body.length then "known-length" else "length-disagrees")
+  else if cl = 0 then (if body.isEmpty then "no-body" else "zero-length-with-bytes")
+  else (if body.isEmpty then "unknown-length-empty" else "chunked")
+
+/-- the whole body is available to the cryption handler under this framing and within the limit -/
+def wholeBody (limit cl : Int) (body : Bytes) : Bool :=
+  if cl > 0 then decide (cl = body.length) && !(decide (limit > 0) && decide (cl > limit))
+  else if cl < 0 then decide ((body.length : Int) ≤ (if limit > 0 then limit else maxBytes))
+  else false
+
 def runCsLine (r : Report) (sec : Nat) (cfg : CsCfg) (l : Line) : Report :=
   let fail (msg : String) := r.mismatch sec l.idx msg (joinSp l.op)
   match l.op with
   | "req" :: a =>
     let o := l.obs
-    let parsed : Option (CsEnv × CsReq × Bytes × List (Bytes × Bytes) × Bytes) := do
+    let parsed : Option (CsEnv × CsReq × Bytes × List (Bytes × Bytes) × Bytes × List (String × String × RsaRes)) := do
       let now ← (← kv? o "now").toInt?
       let path ← unhexStr (← kv? o "p")
       let query ← unhexStr (← kv? o "q")
@@ -165,40 +308,37 @@ def runCsLine (r : Report) (sec : Nat) (cfg : CsCfg) (l : Line) : Report :=
           match uripq.splitOn ":" with
           | [p, q] => do pure (some ((← unhexStr p), (← unhexStr q)))
           | _ => none
-      let rsaS ← kv? o "rsa"
-      let rsa : RsaRes ←
-        if rsaS = "-" ∨ rsaS = "NOKEY" then some .noKey else if rsaS = "ERR" then some .err
-        else match rsaS.splitOn ":" with
-          | ["OK", h] => (unhexStr h).map .ok
-          | _ => none
-      let sigv ← unhexStr (← kv? o "sigv")
+      let rsaT ← parseRsaTable (← kv? o "rsa")
+      let hdrs ← parseHexList (← kv? o "hdrs")
       let table ← parseAes (← kv? o "aes")
       let uri ← unhexStr (← kv? a "uri")
-      let fp ← unhexStr (← kv? a "fp")
-      let secMode ← kv? a "sec"
       let body ← unhex (← kv? a "body")
       let reply ← unhex (← kv? a "reply")
       let ak ← unhex (← kv? a "ak")
-      let hdr ← kv? a "hdr"
       let env : CsEnv := {
-        rsa := fun _ _ => rsa
+        rsa := fun fp s => match rsaT.find? (fun e => e.1 = fp ∧ e.2.1 = s) with
+          | some e => e.2.2
+          | none => .err
         hmacB64 := fun k t => b64Encode (hmacSha256 k (strBytes t))
         sha256Hex := fun b => toHex (Sha256.sum b)
         urlParse := fun _ => up
         now := now }
       let req : CsReq := {
-        method := (← kv? a "m"), path := path, query := query, uri := uri,
-        header := if hdr = "1" then some (fp, if secMode = "empty" then "" else "@SECRET@", sigv) else none,
-        cl := cl, body := body }
-      pure (env, req, reply, table, ak)
+        method := (← kv? a "m"), path := path, query := query, uri := uri, headers := hdrs, cl := cl, body := body }
+      pure (env, req, reply, table, ak, rsaT)
     match parsed, parseResp o with
-    | some (env, req, reply, table, ak), some obs =>
+    | some (env, req, reply, table, ak, rsaT), some obs =>
+      let hd := headerTriple req
+      if !hd.1.isEmpty ∧ !hd.2.1.isEmpty ∧ !hd.2.2.isEmpty ∧ (rsaT.find? (fun e => e.1 = hd.1 ∧ e.2.1 = hd.2.1)).isNone then
+        fail "rsa-oracle-miss (the harness stated no RSA fact for the effective fingerprint/secret pair)"
+      else
       let inner : Inner := fun _ => reply
       let m0 := contentSecurity (oracleCipher table 0xEE) env cfg req inner
       let m1 := contentSecurity (oracleCipher table 0xDD) env cfg req inner
       let r := { r with ops := r.ops + 1 }
       let hdrRes := parseContentSecurity env req
       let gated := gatedMethods.contains req.method
+      let frame := frameName req.cl req.body
       let r := r.addCover (
         if !gated then s!"cs-ungated-{req.method}"
         else match hdrRes with
@@ -207,14 +347,22 @@ def runCsLine (r : Report) (sec : Nat) (cfg : CsCfg) (l : Line) : Report :=
               | .invalidSecret => "undecryptable-secret" | .invalidKey => "bad-key-base64"
               | .invalidContentType => "bad-content-type")
           | .ok h => match verifySignature env cfg.tol req h with
-              | 0 => if req.cl > 0 ∧ h.contentType = 1 then "cs-pass-encrypted" else "cs-pass-plain"
-              | 1 => "cs-bad-timestamp" | 2 => "cs-wrong-time" | _ => "cs-signature-mismatch")
+              | 0 => if req.cl ≠ 0 ∧ h.contentType = 1 then s!"cs-pass-encrypted-{frame}" else s!"cs-pass-plain-{frame}"
+              | 1 => "cs-bad-timestamp" | 2 => "cs-wrong-time" | _ => s!"cs-signature-mismatch-{frame}")
       let r := r.addCover (if m0.ran then "cs-ran" else if m0.panic then "cs-panic" else s!"cs-status-{m0.status}")
+      let r := r.addCover s!"cs-frame-{frame}"
+      let r := if kv? a "via" = some "wire" then r.addCover s!"cs-via-wire-{frame}" else r
+      let r := if req.headers.length > 1 then r.addCover "cs-header-sent-twice" else r
       let r := if !req.uri.isEmpty then r.addCover (if env.urlParse req.uri |>.isSome then "cs-request-uri" else "cs-request-uri-unparsable") else r
       let r := match hdrRes with
         | .ok h => match parseInt64 h.timestamp with
-          | some s => if s + cfg.tol = env.now ∨ env.now + cfg.tol = s then r.addCover "cs-window-edge"
-                      else if s + cfg.tol + 1 = env.now ∨ env.now + cfg.tol + 1 = s then r.addCover "cs-window-edge-outside" else r
+          | some s =>
+            if s + cfg.tol = env.now then r.addCover "cs-window-edge-past"
+            else if env.now + cfg.tol = s then r.addCover "cs-window-edge-future"
+            else if s + cfg.tol + 1 = env.now then r.addCover "cs-window-one-second-outside-past"
+            else if env.now + cfg.tol + 1 = s then r.addCover "cs-window-one-second-outside-future"
+            else if s + cfg.tol - 1 = env.now then r.addCover "cs-window-one-second-inside-past"
+            else if env.now + cfg.tol - 1 = s then r.addCover "cs-window-one-second-inside-future" else r
           | none => r
         | _ => r
       let r := if !cfg.strict then r.addCover "cs-nonstrict" else r
@@ -222,15 +370,21 @@ def runCsLine (r : Report) (sec : Nat) (cfg : CsCfg) (l : Line) : Report :=
       let r := match csMonitor env cfg req obs with
         | some msg => r.violation sec l.idx s!"{msg} [{showResp obs}]"
         | none => r
-      -- encrypted round trip, for verified encrypted requests only
+      let r := match csBodyMonitor env cfg req obs with
+        | some msg => r.violation sec l.idx s!"{msg} [{showResp obs}]"
+        | none => r
+      let r := labelCheck r sec l.idx "cs" (kv? a "mut") (cfg.strict && gated && req.uri.isEmpty) obs.ran (showResp obs)
+      -- encrypted round trip, for verified encrypted requests whose whole body the framing delivers
       match hdrRes with
       | .ok h =>
-        if gated ∧ verifySignature env cfg.tol req h = 0 ∧ req.cl > 0 ∧ h.contentType = 1 ∧ h.key = ak
-            ∧ req.cl = req.body.length ∧ ¬ (cfg.limit > 0 ∧ req.cl > cfg.limit) then
-          let C := oracleCipher table 0xEE
-          match cryptMonitor C h.key (properlyEncrypted C h.key req.body) reply obs with
-          | some msg => r.violation sec l.idx s!"{msg} [{showResp obs}]"
-          | none => r.addCover (if (properlyEncrypted C h.key req.body).isSome then "cs-roundtrip-checked" else "cs-malformed-ciphertext")
+        if gated ∧ verifySignature env cfg.tol req h = 0 ∧ h.contentType = 1 ∧ h.key = ak then
+          if req.cl = 0 then r.addCover "cs-type1-without-body-plain-reply"
+          else if wholeBody cfg.limit req.cl req.body then
+            let C := oracleCipher table 0xEE
+            match cryptMonitor C h.key (properlyEncrypted C h.key req.body) reply obs with
+            | some msg => r.violation sec l.idx s!"{msg} [framing {frame}] [{showResp obs}]"
+            | none => r.addCover (if (properlyEncrypted C h.key req.body).isSome then s!"cs-roundtrip-checked-{frame}" else "cs-malformed-ciphertext")
+          else r
         else r
       | _ => r
     | _, _ => fail "unparsable-line"
@@ -250,28 +404,40 @@ def runCryptLine (r : Report) (sec : Nat) (key : Bytes) (limit : Int) (l : Line)
       let m0 := cryptionHandler C limit key cl body inner
       let m1 := cryptionHandler (oracleCipher table 0xDD) limit key cl body inner
       let r := { r with ops := r.ops + 1 }
+      let frame := frameName cl body
+      let content : Except String Bytes :=
+        if cl = 0 then .error "crypt-no-body-passthrough"
+        else if limit > 0 ∧ cl > limit then .error "crypt-too-long"
+        else if cl > 0 then (if (body.length : Int) < cl then .error "crypt-short-body" else .ok (body.take cl.toNat))
+        else if (body.length : Int) > (if limit > 0 then limit else maxBytes) then .error "crypt-unknown-length-too-long"
+        else if body.isEmpty then .error "crypt-unknown-length-empty-passthrough"
+        else .ok body
       let r := r.addCover (
-        if cl ≤ 0 then "crypt-no-content-length"
-        else if limit > 0 ∧ cl > limit then "crypt-too-long"
-        else if (body.length : Int) < cl then "crypt-short-body"
-        else match b64Decode (bytesToString (body.take cl.toNat)) with
+        match content with
+        | .error c => c
+        | .ok content =>
+          match b64Decode (bytesToString content) with
           | none => "crypt-bad-base64"
           | some ct =>
             if !C.keyOk key then "crypt-bad-key"
-            else if ct.isEmpty then "crypt-empty-ciphertext-panic"
+            else if ct.isEmpty then "crypt-empty-ciphertext"
             else if ct.length % 16 ≠ 0 then "crypt-partial-block-zeros"
             else match ecbDecrypt C key ct with
-              | .ok p => if (properlyEncrypted C key (body.take cl.toNat)).isSome then "crypt-decrypted" else
+              | .ok p => if (properlyEncrypted C key content).isSome then s!"crypt-decrypted-{frame}" else
                   (if p.length = ct.length then "crypt-zero-padding-accepted" else "crypt-unchecked-padding-accepted")
-              | .padErr => if (properlyEncrypted C key (body.take cl.toNat)) = some [] then "crypt-all-padding-rejected" else "crypt-padding-error"
+              | .padErr => "crypt-padding-error"
               | _ => "crypt-other")
+      let r := r.addCover s!"crypt-frame-{frame}"
+      let r := if kv? a "via" = some "wire" then r.addCover s!"crypt-via-wire-{frame}" else r
+      let r := if (limit > 0 ∧ (body.length : Int) = limit) then r.addCover s!"crypt-body-at-limit-{frame}"
+               else if (limit > 0 ∧ (body.length : Int) = limit + 1) then r.addCover s!"crypt-body-one-over-limit-{frame}" else r
       let r := r.addCover (if m0.ran then (if reply.isEmpty then "crypt-empty-reply" else if m0.status = 500 then "crypt-reply-500" else "crypt-reply-encrypted")
                            else if m0.panic then "crypt-panic" else s!"crypt-status-{m0.status}")
       let r := compareResp r sec l.idx m0 m1 obs
-      if C.keyOk key ∧ cl > 0 ∧ cl = body.length ∧ ¬ (limit > 0 ∧ cl > limit) then
+      if C.keyOk key ∧ wholeBody limit cl body then
         match cryptMonitor C key (properlyEncrypted C key body) reply obs with
-        | some msg => r.violation sec l.idx s!"{msg} [{showResp obs}]"
-        | none => r
+        | some msg => r.violation sec l.idx s!"{msg} [framing {frame}] [{showResp obs}]"
+        | none => if (properlyEncrypted C key body).isSome then r.addCover s!"crypt-roundtrip-checked-{frame}" else r
       else r
     | _, _ => fail "unparsable-line"
   | _ => fail "bad-op"
@@ -331,6 +497,11 @@ def runSection (r : Report) (s : Section) : Report :=
     match (kv? s.cfg "key").bind unhex with
     | some key => s.lines.foldl (fun acc l => runCryptLine acc s.idx key (kvInt s.cfg "limit" 1048576) l) r
     | none => r.mismatch s.idx 0 "bad-section" (joinSp s.cfg)
+  | some "tp" =>
+    let t0 := kvInt s.cfg "t0" 0
+    let rd := kvInt s.cfg "rd" 0
+    let h0 : Hist := if rd > 0 then { resetTime := t0, resetDuration := rd } else { resetTime := t0 }
+    (s.lines.foldl (fun (acc : Report × TpSt) l => runTpLine acc.1 s.idx acc.2 l) (r, { hist := h0, clock := t0 })).1
   | some "text" => s.lines.foldl (fun acc l => runTextLine acc s.idx l) r
   | _ => r.mismatch s.idx 0 "bad-section" (joinSp s.cfg)
 
